@@ -649,3 +649,72 @@ def feature_docs():
         add("path-" + nm, path + "\n", loads=False, method="path", opts=4 | V)
         add("diffpath-" + nm, path + "\n", loads=False, method="path", kind="diff", opts=V)
     return F
+
+
+# ------------------------------------------------ userdata / base64 --------
+def userdata_docs(lengths):
+    """<userdata> elements around valid base64 content of every given length: the length attribute moved by
+    -2..+2 against unchanged content, content shortened / extended, padding moved / removed / added, characters
+    outside the alphabet, white space, encoding and name attribute variants.  Yields (bytes, description)."""
+    import base64 as b64
+    base = tiny_seed(True)
+    cut = base.index(b"<object type=\"NUMANode\"")
+
+    def doc(elems):
+        return base[:cut] + elems + b"\n" + base[cut:]
+
+    def ud(length, content, enc=b' encoding="base64"', name=b' name="u"'):
+        return b"<userdata" + name + (b' length="%d"' % length if length is not None else b"") + enc + b">" + content + b"</userdata>"
+
+    for n in lengths:
+        raw = bytes((37 * i + n) % 251 + 1 for i in range(n))
+        txt = b64.b64encode(raw)
+        yield doc(ud(n, txt)), "userdata:n%d:valid" % n
+        for d in (-2, -1, 1, 2):
+            if n + d >= 0:
+                yield doc(ud(n + d, txt)), "userdata:n%d:length%+d" % (n, d)
+        # same encoded size, more / fewer bytes encoded (padding replaced by data and back)
+        if txt.endswith(b"=="):
+            yield doc(ud(n, txt[:-2] + b"A=")), "userdata:n%d:pad2to1" % n
+            yield doc(ud(n, txt[:-2] + b"AA")), "userdata:n%d:pad2to0" % n
+            yield doc(ud(n, txt[:-1] + b"A")), "userdata:n%d:pad-half" % n
+        elif txt.endswith(b"="):
+            yield doc(ud(n, txt[:-1] + b"A")), "userdata:n%d:pad1to0" % n
+            yield doc(ud(n, txt[:-2] + b"==")), "userdata:n%d:pad1to2" % n
+        elif txt:
+            yield doc(ud(n, txt[:-1] + b"=")), "userdata:n%d:pad0to1" % n
+            yield doc(ud(n, txt[:-2] + b"==")), "userdata:n%d:pad0to2" % n
+        for k in (1, 2, 3, 4):
+            if len(txt) >= k:
+                yield doc(ud(n, txt[:-k])), "userdata:n%d:cut%d" % (n, k)
+            yield doc(ud(n, txt + b"QUJD"[:k])), "userdata:n%d:ext%d" % (n, k)
+        if txt:
+            yield doc(ud(n, b"=" + txt[1:])), "userdata:n%d:pad-first" % n
+            yield doc(ud(n, txt[:1] + b"=" + txt[2:])), "userdata:n%d:pad-second" % n
+            mid = len(txt) // 2
+            for bad in (b"!", b"-", b"_", b" ", b"\t", b"\xff", b"&amp;"):
+                yield doc(ud(n, txt[:mid] + bad + txt[mid + 1:])), "userdata:n%d:char-%s" % (n, bad.hex())
+            yield doc(ud(n, txt + b"====")), "userdata:n%d:pad-extra" % n
+            yield doc(ud(n, txt.rstrip(b"=") + b" = = ")), "userdata:n%d:pad-spaced" % n
+        for enc in (b"", b' encoding="normal"', b' encoding="base64 "', b' encoding="BASE64"', b' encoding=""', b' encoding="base64" encoding="x"'):
+            yield doc(ud(n, txt, enc=enc)), "userdata:n%d:enc-%s" % (n, enc.hex()[:12])
+        for nm in (b"", b' name=""', b' name="&quot;&amp;"', b' name="' + b"n" * 300 + b'"'):
+            yield doc(ud(n, txt, name=nm)), "userdata:n%d:name%d" % (n, len(nm))
+        yield doc(ud(None, txt)), "userdata:n%d:no-length" % n
+        yield doc(ud(n, txt) + ud(n, txt) + ud(max(n - 1, 0), txt)), "userdata:n%d:several" % n
+
+
+def b64_cases(lengths):
+    """(targsize, text) pairs for the direct differential test of hwloc_decode_from_base64: every target size
+    from 0 to need+2 for valid and slightly damaged encodings of every given length"""
+    import base64 as b64
+    for n in lengths:
+        raw = bytes((91 * i + 3 * n) % 256 for i in range(n))
+        txt = b64.b64encode(raw)
+        variants = [txt, txt.rstrip(b"="), txt[:-1], txt + b"A", txt + b"=", txt[:-1] + b"A" if txt else b"A", txt[:-2] + b"AA" if len(txt) > 1 else b"AA",
+                    txt[:-2] + b"A=" if len(txt) > 1 else b"A=", b" " + txt + b" \n", txt[:1] + b"\t" + txt[1:], txt[:len(txt) // 2] + b"!" + txt[len(txt) // 2:], b"=" + txt]
+        for v in variants:
+            if b"\n" in v.strip(b"\n") or b"\x00" in v:
+                continue
+            for t in sorted(set([0, 1, max(n - 2, 0), max(n - 1, 0), n, n + 1, n + 2])):
+                yield t, v
